@@ -133,6 +133,8 @@ class FnTranslator:
                 return self.nm(e.id)
             if e.id in self.consts:
                 return e.id
+            if e.id == 'Ellipsis':
+                return 'V.ellipsis'
             raise Untranslatable(f'free name {e.id}')
         if isinstance(e, ast.BinOp):
             if type(e.op) not in _BIN:
@@ -163,6 +165,8 @@ class FnTranslator:
                 return f'(V.tup3 {self.expr(e.elts[0])} {self.expr(e.elts[1])} {self.expr(e.elts[2])})'
             if len(e.elts) == 0:
                 return 'V.nil'
+            if len(e.elts) == 1:
+                return f'(V.cons {self.expr(e.elts[0])} V.nil)'
             raise Untranslatable('tuple of length %d' % len(e.elts))
         if isinstance(e, ast.Dict):
             if e.keys:
@@ -180,7 +184,9 @@ class FnTranslator:
                         and isinstance(sl.step.op, ast.USub) and isinstance(sl.step.operand, ast.Constant) \
                         and sl.step.operand.value == 1:
                     return f'(← V.reversed {self.expr(e.value)})'
-                raise Untranslatable('slice subscript other than [::-1]')
+                if sl.lower is not None and sl.upper is None and sl.step is None:
+                    return f'(← V.dropFrom {self.expr(e.value)} {self.expr(sl.lower)})'
+                raise Untranslatable('slice subscript other than [::-1] / [k:]')
             return f'(← V.getItem {self.expr(e.value)} {self.expr(sl)})'
         if isinstance(e, ast.Call):
             return self.call(e)
@@ -192,6 +198,8 @@ class FnTranslator:
         f = e.func
         if isinstance(f, ast.Name) and f.id in self.known and not e.keywords:
             cpos = self.known[f.id][1]
+            defaults = self.known[f.id][2] if len(self.known[f.id]) > 2 else {}
+            nparams = self.known[f.id][3] if len(self.known[f.id]) > 3 else len(e.args)
             args = []
             for i, a in enumerate(e.args):
                 if i in cpos:
@@ -200,11 +208,21 @@ class FnTranslator:
                     args.append(self.nm(a.id))
                 else:
                     args.append(self.expr(a))
+            for i in range(len(e.args), nparams):
+                if i not in defaults:
+                    raise Untranslatable(f'call of {f.id} omits argument {i} that has no translated default')
+                args.append(defaults[i])
             return f'(← {self.known[f.id][0]} {" ".join(args)})'
         if isinstance(f, ast.Name) and f.id == 'isinstance':
-            if len(e.args) == 2 and isinstance(e.args[1], ast.Name) and e.args[1].id == 'Integral':
-                return f'(V.bool (V.isIntegral {self.expr(e.args[0])}))'
-            raise Untranslatable('isinstance with a class other than Integral')
+            if len(e.args) == 2 and isinstance(e.args[1], ast.Name) and e.args[1].id in ('Integral', 'tuple', 'slice'):
+                fn = {'Integral': 'V.isIntegral', 'tuple': 'V.isSeq', 'slice': 'V.isSlice'}[e.args[1].id]
+                return f'(V.bool ({fn} {self.expr(e.args[0])}))'
+            raise Untranslatable('isinstance with a class other than Integral / tuple / slice')
+        if isinstance(f, ast.Name) and f.id == 'getattr' and len(e.args) == 3 and isinstance(e.args[1], ast.Constant) \
+                and e.args[1].value not in ('start', 'stop', 'step') and not e.keywords:
+            # values of the fragment (ints, None, slices, Ellipsis, sequences) have no other attributes:
+            # `getattr(x, name, default)` is `default`
+            return self.expr(e.args[2])
         args = [self.expr(a) for a in e.args]
         if isinstance(f, ast.Attribute):
             if f.attr == 'indices' and len(args) == 1:
@@ -219,6 +237,8 @@ class FnTranslator:
             return f'(← {self.nm(name)} {" ".join(args)})'
         if name in self.known:
             return f'(← {self.known[name][0]} {" ".join(args)})'
+        if name == 'enumerate' and len(args) == 1:
+            return f'(← V.enumerate {args[0]})'
         if name == 'len' and len(args) == 1:
             return f'(← V.len {args[0]})'
         if name in ('tuple', 'list') and len(args) == 1:
@@ -265,6 +285,13 @@ class FnTranslator:
                     raise Untranslatable('`is` with something other than None')
                 t = f'(V.isNone {self.expr(l)})'
                 return t if isinstance(op, ast.Is) else f'(!{t})'
+            if isinstance(op, (ast.In, ast.NotIn)) and isinstance(r, ast.Constant) and isinstance(r.value, str) \
+                    and '"' not in r.value and '\\' not in r.value:
+                t = f'(← V.strInV {self.expr(l)} "{r.value}")'
+                return t if isinstance(op, ast.In) else f'(!{t})'
+            if isinstance(op, (ast.In, ast.NotIn)) and not isinstance(r, ast.Tuple):
+                t = f'(← V.contains {self.expr(r)} {self.expr(l)})'
+                return t if isinstance(op, ast.In) else f'(!{t})'
             if isinstance(op, (ast.In, ast.NotIn)):
                 if not isinstance(r, ast.Tuple) or not r.elts:
                     raise Untranslatable('`in` with a non-literal container')
@@ -324,7 +351,7 @@ class FnTranslator:
                 a = [a[0], a[1], '(V.int 1)']
             iterable = f'(← V.pyRange {a[0]} {a[1]} {a[2]})'
         else:
-            iterable = self.expr(it)
+            iterable = f'(← V.asList {self.expr(it)})'
         self.nloops += 1
         k = self.nloops
         base = self.nm(self.lean_name)
@@ -466,6 +493,16 @@ class FnTranslator:
                 out += [f'{ind}| .error e => throw e', f'{ind}| .ok {t} =>', f'{ind}    {tgt} := {t}']
                 out += self.block(s.orelse, ind + '    ') if s.orelse else []
                 return out
+            if (len(s.body) == 1 and isinstance(s.body[0], ast.Expr) and isinstance(s.body[0].value, ast.Call)
+                    and isinstance(s.body[0].value.func, ast.Name) and s.body[0].value.func.id == 'int'
+                    and len(s.body[0].value.args) == 1 and len(s.handlers) == 1
+                    and isinstance(s.handlers[0].type, ast.Name) and s.handlers[0].type.id == 'TypeError'
+                    and s.handlers[0].name is None and not s.finalbody and not s.orelse):
+                arg = self.expr(s.body[0].value.args[0])
+                out = [f'{ind}match V.toInt {arg} with', f'{ind}| .error Err.typeError =>']
+                out += self.block(s.handlers[0].body, ind + '    ')
+                out += [f'{ind}| .error e => throw e', f'{ind}| .ok _ => pure ()']
+                return out
             raise Untranslatable('try statement outside the supported pattern')
         raise Untranslatable(f'statement {type(s).__name__}')
 
@@ -561,12 +598,72 @@ class _WriteBack(ast.NodeTransformer):
         return [init, node, fin]
 
 
+class _Desugar(ast.NodeTransformer):
+    """Purely syntactic desugaring into the statement forms the translator knows:
+
+        for i, x in enumerate(L): B        ==>  for _enK in enumerate(L): i, x = _enK; B
+        t = [E for v in L if C]            ==>  _lcK = []; for v in L: if C: _lcK.append(E);  t = _lcK
+        if all(C for v in L): A else: B    ==>  _allK = True; for v in L: if not C: _allK = False;  if _allK: A else: B
+    (`all` does not short-circuit after the rewrite; C must be free of side effects and errors — it is a comparison.)"""
+    def __init__(self):
+        self.k = 0
+
+    def fresh(self, p):
+        self.k += 1
+        return f'_{p}{self.k}'
+
+    def visit_For(self, node):
+        self.generic_visit(node)
+        if isinstance(node.target, ast.Tuple) and isinstance(node.iter, ast.Call) \
+                and isinstance(node.iter.func, ast.Name) and node.iter.func.id == 'enumerate':
+            v = self.fresh('en')
+            unpack = ast.Assign(targets=[node.target], value=ast.Name(id=v, ctx=ast.Load()))
+            node.target = ast.Name(id=v, ctx=ast.Store())
+            node.body = [unpack] + node.body
+        return node
+
+    def visit_Assign(self, node):
+        self.generic_visit(node)
+        if isinstance(node.value, ast.ListComp) and len(node.value.generators) == 1 \
+                and isinstance(node.value.generators[0].target, ast.Name) and not node.value.generators[0].is_async:
+            g = node.value.generators[0]
+            v = self.fresh('lc')
+            app = ast.Expr(value=ast.Call(func=ast.Attribute(value=ast.Name(id=v, ctx=ast.Load()), attr='append',
+                                                             ctx=ast.Load()), args=[node.value.elt], keywords=[]))
+            body = app
+            for c in reversed(g.ifs):
+                body = ast.If(test=c, body=[body], orelse=[])
+            loop = ast.For(target=g.target, iter=g.iter, body=[body], orelse=[])
+            init = ast.Assign(targets=[ast.Name(id=v, ctx=ast.Store())], value=ast.List(elts=[], ctx=ast.Load()))
+            node.value = ast.Name(id=v, ctx=ast.Load())
+            return [init, loop, node]
+        return node
+
+    def visit_If(self, node):
+        self.generic_visit(node)
+        t = node.test
+        if isinstance(t, ast.Call) and isinstance(t.func, ast.Name) and t.func.id == 'all' and len(t.args) == 1 \
+                and isinstance(t.args[0], ast.GeneratorExp) and len(t.args[0].generators) == 1 \
+                and isinstance(t.args[0].generators[0].target, ast.Name) and not t.args[0].generators[0].ifs:
+            g = t.args[0].generators[0]
+            v = self.fresh('all')
+            init = ast.Assign(targets=[ast.Name(id=v, ctx=ast.Store())], value=ast.Constant(value=True))
+            setf = ast.Assign(targets=[ast.Name(id=v, ctx=ast.Store())], value=ast.Constant(value=False))
+            loop = ast.For(target=g.target, iter=g.iter,
+                           body=[ast.If(test=ast.UnaryOp(op=ast.Not(), operand=t.args[0].elt), body=[setf], orelse=[])],
+                           orelse=[])
+            node.test = ast.Name(id=v, ctx=ast.Load())
+            return [init, loop, node]
+        return node
+
+
 def get_fn_node(obj):
     src = textwrap.dedent(inspect.getsource(obj))
     mod = ast.parse(src)
     fn = mod.body[0]
     if not isinstance(fn, ast.FunctionDef):
         raise Untranslatable('not a function definition')
+    fn = ast.fix_missing_locations(_Desugar().visit(fn))
     fn = ast.fix_missing_locations(_WriteBack().visit(fn))
     return fn, src
 
@@ -590,8 +687,17 @@ def translate_functions(objs, namespace, header, constants=None):
                                                  f'({getattr(obj, "__module__", "?")})')
         out.append(body)
         out.append('')
+        dflt = {}
+        for i, p in enumerate(tr.params):
+            if p in tr.defaults and p not in tr.callable_params:
+                d = tr.defaults[p]
+                if isinstance(d, ast.Constant) and (d.value is None or isinstance(d.value, (bool, int))):
+                    dflt[i] = tr.expr(d)
+                elif isinstance(d, ast.Name) and d.id in (constants or {}):
+                    dflt[i] = d.id
         known[fn.name] = (tr.nm(lname or fn.name),
-                          {i: tr.callable_params[p] for i, p in enumerate(tr.params) if p in tr.callable_params})
+                          {i: tr.callable_params[p] for i, p in enumerate(tr.params) if p in tr.callable_params},
+                          dflt, len(tr.params))
     out.append(f'end {namespace}')
     out.append('')
     return '\n'.join(out)
@@ -606,6 +712,8 @@ import numbers as _numbers
 def show_v(v):
     if v is None:
         return 'N'
+    if v is Ellipsis:
+        return 'E'
     if isinstance(v, bool):
         return 'b1' if v else 'b0'
     if isinstance(v, _numbers.Integral):
